@@ -32,3 +32,25 @@ void __vf_log(uint32_t id, uint32_t a, uint32_t b) {
   eq_h++;
 }
 void __vf_expect_done(void) { __CPROVER_assert(eq_h == eq_t, "property: every expected delivery happened (no live, unmuted observer was skipped)"); eq_h = eq_t = 0; }
+
+/* ---- regex model: truth table fixed for the run; id 0 is the constant-true ".*"; names outside the universe {"", "a", "b", "c"} are a BOUND ---- */
+_Bool vf_tt[10][4]; int vf_tt_init;
+_Bool nondet_bool(void);
+uint8_t __vf_nondet_bool(void);
+void __vf_regex_init(void) {   /* called once at the start of the harness: the table is fixed for the run */
+uint8_t __vf_nondet_bool(void);
+#define TT(r) vf_tt[r][0] = __vf_nondet_bool(); vf_tt[r][1] = __vf_nondet_bool(); vf_tt[r][2] = __vf_nondet_bool(); vf_tt[r][3] = __vf_nondet_bool();
+  TT(1) TT(2) TT(3) TT(4)
+  vf_tt_init = 1;
+}
+uint8_t __vf_regex_match(uint32_t id, void *p_, uint64_t n) {
+  const char *p = p_;
+  if (id == 0) return 1;
+  __CPROVER_assert(id < 5 && vf_tt_init, "BOUND: regex id within the model (r1..r4) and table initialised");
+  int k = -1;
+  if (n == 0) k = 0; else if (n == 1 && p[0] == 'a') k = 1; else if (n == 1 && p[0] == 'b') k = 2; else if (n == 1 && p[0] == 'c') k = 3;
+  __CPROVER_assert(k >= 0, "BOUND: regex_match on a level name outside the model universe"); __CPROVER_assume(k >= 0);
+  return vf_tt[id][k];
+}
+void __vf_regex_set(uint32_t id, uint32_t k, uint32_t v) { vf_tt[id][k] = v & 1; }   /* cube-given (concrete) entries */
+uint8_t __vf_regex_truth(uint32_t id, uint32_t k) { return id == 0 ? 1 : vf_tt[id][k]; }
